@@ -134,6 +134,28 @@ def impl_graph(case):
     return out
 
 
+def impl_graph_via_store(case):
+    """write ids/edges to a MemoryStore, read back with data_validation=ValidationConfig(graph=True)"""
+    import zarr
+    from geff.core_io import write_arrays
+    from geff.core_io._base_read import read_to_memory
+    from geff.validate.data import ValidationConfig
+
+    dt = np.dtype(case["dtype"])
+    out = {}
+    for d in (True, False):
+        st = zarr.storage.MemoryStore()
+        try:
+            write_arrays(st, np.asarray(case["ids"], dtype=dt), {}, np.asarray(case["edges"], dtype=dt).reshape(-1, 2), {},
+                         _meta(directed=d))
+        except Exception as ex:  # noqa: BLE001  (writing is not what is under test here)
+            out["directed" if d else "undirected"] = {"o": "write-failed:" + type(ex).__name__}
+            continue
+        out["directed" if d else "undirected"] = _outcome(
+            lambda st=st: read_to_memory(st, data_validation=ValidationConfig(graph=True)))
+    return out
+
+
 def graph_exhaustive(alphabet_of, nmax_ids, nmax_edges, dtypes):
     """all id lists / edge lists over a 3-letter alphabet (0, 1, max of the dtype); dtypes round-robin"""
     k = 0
@@ -846,6 +868,20 @@ def run(ck: common.Check):
         elif k == "lineage_masked":
             judge_lineage(ck, c, im, mo[0] if mo else None)
     ck.extra["cases_per_kind"] = per_kind
+    # a sample of the graph cases through a store and read_to_memory(data_validation=graph)
+    gs = [c for c in cases if c["kind"] == "graph" and c["ids"]]
+    sample = ck.rng.sample(gs, min(len(gs), 150 if ck.quick else 1500))
+    n_store = 0
+    for c, r in zip(sample, common.pmap(impl_graph_via_store, sample, chunksize=8)):
+        o = graph_oracle(c["ids"], c["edges"])
+        for d in ("directed", "undirected"):
+            if r[d]["o"].startswith("write-failed"):
+                continue
+            n_store += 1
+            if (r[d]["o"] == "ok") != o["valid_" + d] or r[d]["o"] not in ("ok", "ValueError"):
+                ck.fail("C12:read_to_memory-graph", f"read_to_memory(data_validation=graph, {d}) gave {r[d]}, graph valid={o['valid_' + d]}",
+                        c, r[d], o["valid_" + d])
+    ck.extra["graph_through_store_and_read_to_memory"] = n_store
     ck.extra["explanation"] = ("symmetric / positive-definite (np.allclose + np.linalg.eigvals) has NO Lean model: it is decided by "
                            "differential testing only (kind ellipsoid_float), on matrices clearly inside or clearly outside the set")
     ck.assumptions += [
@@ -879,6 +915,13 @@ def replay(rp):
     k = c["kind"]
     if k == "graph":
         judge_graph(r, c, im, None)
+        if rp.get("key") == "C12:read_to_memory-graph":
+            vs = impl_graph_via_store(c)
+            o = graph_oracle(c["ids"], c["edges"])
+            im = {**im, "via_store": vs}
+            for d in ("directed", "undirected"):
+                if not vs[d]["o"].startswith("write-failed") and (vs[d]["o"] == "ok") != o["valid_" + d]:
+                    r.fail("C12:read_to_memory-graph", f"read_to_memory(data_validation=graph, {d}) gave {vs[d]}")
     elif k == "sphere":
         judge_sphere(r, c, im, None)
     elif k == "ellipsoid_shape":
